@@ -57,6 +57,15 @@ SPECS = {
         "explanation": "Theorems over the Document.Update state machine with the CRDT layer abstracted (Section variables): a failing update changes nothing and drops the clone; clone = root is invariant under every sequence of updates given [proxy_agrees]. The hypothesis is what the engine validates on the real code: Root().Marshal() = Marshal() after every step of histories with failing/panicking updaters, remote packs, GC and undo/redo; and the all-or-nothing fingerprint (content, pending changes, checkpoint, vector, undo depth) around every failing update.",
         "assumptions": ["[proxy_agrees] (executing the pushed operations on the root reproduces what the json proxy did to the clone) is a hypothesis of C08_clone_equals_root, validated differentially, not proved for the real json/operations code"],
     },
+    "C11": {
+        "corr": ["Life", "Proto"],
+        "engines": [
+            {"name": "life", "n": {"quick": 1200, "thorough": 12000}},
+            {"name": "hist", "tag": "c11", "extra": "prop=C11", "n": {"quick": 300, "thorough": 4000}},
+        ],
+        "explanation": "Lifecycle specification (transcribed from the design document) with theorems for every state and call (PushPull only when attached, rejected call is a no-op, detached/removed/deactivated clients cannot write, removed is forever). The real RPC server is compared with the specification call by call (verdict, stored client/document status, number of stored changes) on all call sequences up to length 2 (quick) / 3 (thorough) over 2 client slots x 2 document keys plus seeded mostly-valid sequences of length 4-8; histories with detach/deactivate/re-attach are replayed through the protocol model, and the response vector must be exactly the minimum over the currently attached clients (a detached or deactivated client no longer holds back GC).",
+        "assumptions": ["memory DB only; documents attached with presence disabled in the sequence engine"],
+    },
     "C04": {
         "corr": ["Proto"],
         "engines": [
